@@ -32,6 +32,79 @@ static std::string show_tup(std::initializer_list<const vh::TV *> l) {
 	return s + "]";
 }
 
+// Converting construction tuple<T...>(const tuple<U...>&) / (tuple<U...>&&) in the four category combinations
+// (values<-values, values<-refs, refs<-values with an LVALUE source, refs<-refs), copy and move.  Oracle = std::tuple
+// doing the same: values, and whether element i of the result IS element i of the source (reference identity:
+// a tuple of references built from a tuple of values must alias the source, not a temporary).
+// tuple.hpp defines no assignment operators (only the implicit same-type ones), so there is no converting assignment.
+#include <string>
+static int tuple_conversion_checks() {
+	int n = 0;
+	auto same = [&](const char *what, bool frg_alias, bool std_alias) {
+		n++;
+		if(frg_alias != std_alias)
+			vh::oracle("tuple", "converting construction %s: element %s the source element, std::tuple's %s", what,
+				frg_alias ? "aliases" : "does not alias", std_alias ? "does" : "does not");
+	};
+	auto val = [&](const char *what, bool ok) { n++; if(!ok) vh::oracle("tuple", "converting construction %s: wrong element value or order", what); };
+	{	// values <- values (copy and move): int -> long, const char * -> std::string
+		frg::tuple<int, const char *> src{7, "seven"}; std::tuple<int, const char *> ssrc{7, "seven"};
+		frg::tuple<long, std::string> a{std::as_const(src)}; std::tuple<long, std::string> sa{std::as_const(ssrc)};
+		val("values<-values (copy)", a.get<0>() == std::get<0>(sa) && a.get<1>() == std::get<1>(sa) && a.get<0>() == 7 && a.get<1>() == "seven");
+		same("values<-values (copy) [0]", (const void *)&a.get<0>() == (const void *)&src.get<0>(), (const void *)&std::get<0>(sa) == (const void *)&std::get<0>(ssrc));
+		frg::tuple<std::string, int> msrc{std::string(40, 'x'), 3}; std::tuple<std::string, int> smsrc{std::string(40, 'x'), 3};
+		frg::tuple<std::string, long> b{std::move(msrc)}; std::tuple<std::string, long> sb{std::move(smsrc)};
+		val("values<-values (move)", b.get<0>() == std::get<0>(sb) && b.get<1>() == std::get<1>(sb) && b.get<0>() == std::string(40, 'x'));
+		val("values<-values (move) leaves the source moved-from like std::tuple", msrc.get<0>().empty() == std::get<0>(smsrc).empty());
+		frg::tuple<std::string, int> csrc{std::string(40, 'y'), 4};
+		frg::tuple<std::string, long> c{std::as_const(csrc)};
+		val("values<-values (copy) keeps the source", csrc.get<0>() == std::string(40, 'y') && c.get<0>() == csrc.get<0>());
+	}
+	{	// values <- refs
+		int x = 5; std::string s(30, 'r');
+		frg::tuple<int &, std::string &> src{x, s}; std::tuple<int &, std::string &> ssrc{x, s};
+		frg::tuple<long, std::string> a{std::as_const(src)}; std::tuple<long, std::string> sa{std::as_const(ssrc)};
+		val("values<-refs (copy)", a.get<0>() == 5 && a.get<1>() == s && std::get<1>(sa) == s);
+		same("values<-refs (copy) [1]", (const void *)&a.get<1>() == (const void *)&s, (const void *)&std::get<1>(sa) == (const void *)&s);
+		a.get<1>() = "changed"; val("values<-refs: the result is a copy", s == std::string(30, 'r'));
+		frg::tuple<long, std::string> b{std::move(src)};
+		val("values<-refs (move)", b.get<0>() == 5 && b.get<1>().size() == 30);
+	}
+	{	// refs <- values, LVALUE source: the references must bind to the source's elements
+		frg::tuple<int, std::string> src{9, std::string(35, 'v')}; std::tuple<int, std::string> ssrc{9, std::string(35, 'v')};
+		frg::tuple<const int &, const std::string &> view{src}; std::tuple<const int &, const std::string &> sview{ssrc};
+		same("refs<-values (copy, lvalue source) [0]", &view.get<0>() == &src.get<0>(), &std::get<0>(sview) == &std::get<0>(ssrc));
+		same("refs<-values (copy, lvalue source) [1]", &view.get<1>() == &src.get<1>(), &std::get<1>(sview) == &std::get<1>(ssrc));
+		src.get<0>() = 10; src.get<1>()[0] = 'w';
+		if(&view.get<0>() == &src.get<0>() && &view.get<1>() == &src.get<1>())   // (a view that does not alias dangles: do not read through it)
+			val("refs<-values: writes to the source are seen through the view", view.get<0>() == 10 && view.get<1>()[0] == 'w');
+		frg::tuple<const int &, const std::string &> cview{std::as_const(src)};
+		same("refs<-values (copy, const lvalue source) [1]", &cview.get<1>() == &src.get<1>(), true);
+		// move: an xvalue of a named tuple; std::tuple binds to the source's elements as well
+		frg::tuple<const int &, const std::string &> mview{std::move(src)}; std::tuple<const int &, const std::string &> smview{std::move(ssrc)};
+		same("refs<-values (move of a named tuple) [0]", &mview.get<0>() == &src.get<0>(), &std::get<0>(smview) == &std::get<0>(ssrc));
+		same("refs<-values (move of a named tuple) [1]", &mview.get<1>() == &src.get<1>(), &std::get<1>(smview) == &std::get<1>(ssrc));
+		// tracked elements: no element object may be created (or moved from) by building a view
+		frg::tuple<El<KF, 0>, El<KF, 1>> tsrc{El<KF, 0>(1), El<KF, 1>(2)};
+		long before = vh::g_life.ctors;
+		frg::tuple<const El<KF, 0> &, const El<KF, 1> &> tview{tsrc};
+		n++; if(vh::g_life.ctors != before || tsrc.get<0>().moved || tsrc.get<1>().moved || &tview.get<1>() != &tsrc.get<1>())
+			vh::oracle("tuple", "building a tuple of references from a tuple of values constructed or moved element objects");
+	}
+	{	// refs <- refs
+		int x = 1; long y = 2; El<KM, 0> mo(3);
+		frg::tuple<int &, long &, El<KM, 0> &> src{x, y, mo}; std::tuple<int &, long &, El<KM, 0> &> ssrc{x, y, mo};
+		frg::tuple<const int &, const long &, const El<KM, 0> &> a{std::as_const(src)}; std::tuple<const int &, const long &, const El<KM, 0> &> sa{std::as_const(ssrc)};
+		same("refs<-refs (copy) [0]", &a.get<0>() == &x, &std::get<0>(sa) == &x);
+		same("refs<-refs (copy) [2]", &a.get<2>() == &mo, &std::get<2>(sa) == &mo);
+		frg::tuple<const int &, const long &, const El<KM, 0> &> b{std::move(src)}; std::tuple<const int &, const long &, const El<KM, 0> &> sb{std::move(ssrc)};
+		same("refs<-refs (move) [1]", &b.get<1>() == &y, &std::get<1>(sb) == &y);
+		same("refs<-refs (move) [2]", &b.get<2>() == &mo, &std::get<2>(sb) == &mo);
+		n++; if(mo.moved) vh::oracle("tuple", "converting a tuple of references moved out of a referenced object");
+	}
+	return n;
+}
+
 // run-time checks that do not depend on the script; returns the number of checks made
 static int tuple_fixed_checks() {
 	int n = 0;
@@ -62,6 +135,7 @@ static int tuple_fixed_checks() {
 		if(c.get<0>() != 1 || c.get<1>() != 2l || c.get<2>() != 'a' || c.get<3>() != 3.5) vh::oracle("tuple", "tuple_cat of three tuples: wrong order or values");
 		n += 2;
 	}
+	n += tuple_conversion_checks();
 	g_log_on = saved;
 	return n;
 }
